@@ -150,6 +150,29 @@ CHECKS = {
     ),
 }
 
+# what the fourth to sixth sessions added to the explored space of each check (appended to the texts above)
+ADDED = {
+    "C01": "Every lattice placement is also located with a minimal radius of 0.6 cells (identical result demanded); random emulsions include 3-D droplets on edges / corners of boxes periodic in two or three axes.",
+    "C02": "Random images include combs across the periodic seam (one piece on one side, many on the other). Known finding F28 (a non-winding on-axis staircase longer than the three-fold padded image of a periodic cylindrical grid is cut) is part of the check: TLC refutes PeriodicCorrect on exactly that image and the real code is run on it (KNOWN-FINDING line, exit 0).",
+    "C03": "Mixed-class emulsions (a spherical droplet first, diffuse ones after it); axisymmetric droplets with up to nine modes and a pronounced high zonal mode on a fine grid; the droplet's own cell is judged.",
+    "C04": "The sum of squares handed to the solver at its first evaluation must equal the squared deviation of the promoted candidate over the region with the documented levels; solver options are recorded (loss must be linear); 8-bit-like levels, one supplied + one automatic level, an image with a strip of NaN pixels far from the droplet.",
+    "C05": "Polar / spherical grids also as annuli / shells; a deliberately sloppy analysis with its own options precedes every fourth scenario.",
+    "C06": "Lattice instances also on partly periodic boxes (Tracking.tla OpenAxes); random courses with wall-hugging droplets, centres outside the periodic cell, integer stamps beyond 2^53, and frames with exact duplicates (judged by counting).",
+    "C07": "As C06; additionally a periodic lattice without cut-off in the quick tier.",
+    "C08": "Time patterns that are not ascending, repeat a stamp, or mix ints and fractions; objects of 12, 103 and 1001 members; emulsions that were linked to an array and then edited without changing their length; lateral noise in axisymmetric droplets.",
+    "C09": "Width exactly 0 as an option; every fifth enumerated image stored as uint8; both trackers driven with every way of naming the field (None, index 0, index 1, callable).",
+    "C10": "Random emulsions with nearly equal radii, vanished droplets inside others, exactly touching pairs at irrational distances (overlaps must agree with the sign of the library's own surface distance); from_random on polar / spherical / cylindrical grids.",
+    "C11": "Operands that went through pickle / copy; self-merge through all three paths; droplets as the image analysis returns them (unrefined and refined); members linked to an array; small droplets far from the origin against exact rationals.",
+    "C12": "Arrays mixing zeros with ordinary values; droplets restored by pickle / copy / from_data; volume changes of 1e-12..7e-10 (relative); compiled variants at zero and on arrays of several shapes; 2-D perturbed droplets with odd numbers of amplitudes.",
+    "C13": "Shape changed in place between reads; radii scaled by 1e-9 .. 1e9; positions for one to four directions; shape of the curvature result in the sphere limit.",
+    "C14": "Repeated stamps; one persistent state object updated in place with a callable source deriving a new field (directly and in solver runs with a transformed storage); index 0 as a source; histories of 12, 103 and 1001 frames through tracker and file.",
+    "C15": "Storages with many more frames than workers (7/2, 11/3, (2 cpu + 5)/auto); refine_droplets called directly with lists, emulsions and one-shot iterables, exhausted evaluation budgets, vanished / off-cell / numpy.void candidates, repeated runs.",
+    "C16": "Requests in any order, repeated, beyond the largest wave number; the caller scribbles over returned arrays; grids with exchanged spacings; fields <= 0 touching zero; one 300 x 344 grid.",
+    "C17": "A partly periodic base field; base fields of 34 and 26 x 17 cells; corner / edge-touching blocks and U-shaped domains under ALL cyclic shifts; 1-D waves of one-cell droplets at four spacings; the same picture on grids with exchanged spacings. Known finding F27 (droplet counting changes under translation when a cluster winds around the periodic box) is reported as KNOWN-FINDING when the seed's base field has such a cluster.",
+    "C18": "Every enumerated image also stored as uint8, int16, int8 (levels -64..64) and, for small alphabets, as int8 shifted to straddle zero; minimal radii between the fitted and the cluster radius with refinement.",
+    "C19": "For periodic refining requests additionally a droplet a hair beside the periodic seam (candidate and fitted centre on opposite sides).",
+}
+
 NOT_YET = {}
 
 PROPS = [json.loads(l)["id"] for l in (ROOT / "properties.jsonl").read_text().splitlines() if l.strip()]
@@ -169,7 +192,7 @@ def main():
                 "evidence_file": f"evidence/{pid}.json",
                 "replay_cmd_template": f"./check {pid} --replay {{path}}",
                 "engine": "tlc+replay",
-                "level_claimed": {"category": c["level"], "text": c["text"], "design_ref": c["ref"]},
+                "level_claimed": {"category": c["level"], "text": c["text"] + (" " + ADDED[pid] if pid in ADDED else ""), "design_ref": c["ref"]},
                 "level_note": c["note"],
                 "technique": c["technique"],
             }
